@@ -212,20 +212,31 @@ def run (ctx):
   g = q.cfg_of(disc)
   dn = [q.enclosing_stmt_node(g, c) for f, c in downs if f is disc]
   flagset = [q.enclosing_stmt_node(g, s_) for t, v, s_, k in q.stores_in(disc.node) if norm(t) == 'self.disconnection_raised' and isinstance(v, ast.Constant) and v.value is True]
-  for d in dn:
+  # the two once-flags may be folded into another representation behind properties of the same names (a bit mask): the rules below
+  # read the plain attributes and do not apply then
+  hidden = any(nm_ in con.methods for nm_ in ('disconnected', 'disconnection_raised')) or \
+           any(isinstance(b_, ast.Assign) and any(isinstance(t_, ast.Name) and t_.id in ('disconnected', 'disconnection_raised') for t_ in b_.targets) and isinstance(b_.value, ast.Call) and call_name(b_.value) == 'property' for b_ in con.node.body)
+  if hidden:
+    ctx.undecided('R-ONCE', disc, "ConnectionDown is raised under a test-and-set", "`disconnected` / `disconnection_raised` are properties over another representation; the once-only state table is not evaluated", disc, 'D4')
+  for d in ([] if hidden else dn):
     fs = q.fact_strs(g, d)
     good = 'self.disconnection_raised:falsy' in fs and bool(flagset) and g.dominates(flagset[0], d)
     ctx.ob('R-ONCE', disc, "ConnectionDown is raised under a test-and-set (`%s`)" % d.text(50), good, "guarded by not disconnection_raised, flag set first" if good else
            "ConnectionDown is not protected by the disconnection_raised test-and-set: a second disconnect/close raises it again (facts %s)" % fs, (mod, d.ast), 'D4')
     ctx.ob('R-DOM', disc, "ConnectionDown only for announced connections (dpid known)", any('self.dpid is not None' in f for f in fs), "under dpid is not None", (mod, d.ast), 'D4')
-  disconnect_states(ctx, repo, mod, con, disc, dn, 'D4')
+  if not hidden: disconnect_states(ctx, repo, mod, con, disc, dn, 'D4')
   reg_rm = g.nodes_with_call(lambda c: call_name(c) == '_disconnect')
   ctx.ob('R-EFFECT', disc, "every disconnect withdraws the connection from the registry", bool(reg_rm) and g.postdominates(reg_rm, g.entry), "_disconnect on every path", disc, 'D5')
   for n in reg_rm:
     c = [c for c in q.node_calls(n) if call_name(c) == '_disconnect'][0]
-    ctx.ob('R-AGREE', disc, "the registry is told which connection is leaving", len(c.args) >= 2 and norm(c.args[0]) == 'self.dpid' and norm(c.args[1]) == 'self', norm(c), (mod, c), 'D5')
+    a0_ = c.args[0] if c.args else None
+    if isinstance(a0_, ast.Name):        # a local copy of the id
+      d0_ = q.single_def(disc.node, a0_.id)
+      if d0_ is not None: a0_ = d0_
+    ctx.ob('R-AGREE', disc, "the registry is told which connection is leaving", len(c.args) >= 2 and norm(a0_) == 'self.dpid' and norm(c.args[1]) == 'self', norm(c), (mod, c), 'D5')
   mark = [q.enclosing_stmt_node(g, s_) for t, v, s_, k in q.stores_in(disc.node) if norm(t) == 'self.disconnected' and isinstance(v, ast.Constant) and v.value is True]
-  ctx.ob('R-EFFECT', disc, "every disconnect marks the connection dead (send() then refuses)", bool(mark) and g.postdominates(mark, g.entry), "self.disconnected = True on every path", disc, 'D4')
+  ctx.ob('R-EFFECT', disc, "every disconnect marks the connection dead (send() then refuses)", (bool(mark) and g.postdominates(mark, g.entry)) if not (hidden and not mark) else None,
+         "self.disconnected = True on every path" if mark else "`disconnected` is a property over another representation", disc, 'D4')
   cl = q.find_method(repo, con, 'close', 'C09'); ctx.analysed(cl)
   g2 = q.cfg_of(cl); dcs = g2.nodes_with_call(lambda c: call_name(c) == 'disconnect')
   good = bool(dcs) and g2.postdominates(dcs, g2.entry)
